@@ -37,13 +37,13 @@ impl VarInt {
 //@ end
 
 //@ extract wtransport-proto/src/varint.rs >> impl VarInt >> fn try_from_u64
-//@ subst `Self::MAX.0` => `4_611_686_018_427_387_903`
+//@ rename `Self::MAX.0` => `4_611_686_018_427_387_903`
 //@ ensures
 //@ | match r { Ok(v) => value <= VARINT_MAX && v.0 == value && v.wf(), Err(_) => value > VARINT_MAX }
 //@ end
 
 //@ extract wtransport-proto/src/varint.rs >> impl VarInt >> fn from_u64_unchecked
-//@ subst `Self::MAX.into_inner()` => `4_611_686_018_427_387_903`
+//@ rename `Self::MAX.into_inner()` => `4_611_686_018_427_387_903`
 //@ requires value <= VARINT_MAX
 //@ ensures r.0 == value, r.wf()
 //@ end
@@ -152,14 +152,14 @@ impl QStreamId {
     spec fn wf(self) -> bool { self.val() <= QSTREAM_MAX }
 
 //@ extract wtransport-proto/src/ids.rs >> impl QStreamId >> fn from_session_id
-//@ subst `Self::MAX.into_u64()` => `1_152_921_504_606_846_975`
+//@ rename `Self::MAX.into_u64()` => `1_152_921_504_606_846_975`
 //@ prologue proof { let x = session_id.val(); assert(x <= 0x3fff_ffff_ffff_ffff ==> (x >> 2) <= 0x0fff_ffff_ffff_ffff && (x >> 2) == x / 4) by (bit_vector); }
 //@ requires session_id.wf()
 //@ ensures r.val() == session_id.val() / 4, r.wf()
 //@ end
 
 //@ extract wtransport-proto/src/ids.rs >> impl QStreamId >> fn into_stream_id
-//@ subst `VarInt::MAX.into_inner()` => `4_611_686_018_427_387_903`
+//@ rename `VarInt::MAX.into_inner()` => `4_611_686_018_427_387_903`
 //@ prologue proof { let x = self.val(); assert(x <= 0x0fff_ffff_ffff_ffff ==> (x << 2) <= 0x3fff_ffff_ffff_ffff && (x << 2) == x * 4) by (bit_vector); }
 //@ requires self.wf()
 //@ ensures r.val() == 4 * self.val(), r.wf()
